@@ -8,7 +8,9 @@
     every sequence of 4 revisions over 3 pairs; the negative model (lock released while adjusting) loses a wake-up.
 (B) the REAL operator against the stateful fake API, judged by the property automaton WatchMonitor.tla in TLC:
     continuity  random object histories with stream faults at random positions (EOF, connection error, 410 after
-                compaction, bookmarks, unsupported event types, unknown ERROR): every watch request resumes from exactly the
+                compaction, bookmarks, unsupported event types, unknown ERROR), with watches cut by the server's timeoutSeconds,
+                the client's total timeout or kopf's inactivity timer, and list / watch requests answered 429 (with and without
+                Retry-After), 503 or failing at the transport level n times in a row: every watch request resumes from exactly the
                 latest version seen (last list or last released line), and at rest the consumer has seen the final state
                 of every object (or its absence after a listing);
     coverage    namespaces and CRDs appearing and disappearing under a namespace pattern: at every checkpoint at rest
@@ -39,8 +41,32 @@ def run_continuity(sc: dict[str, Any]) -> dict[str, Any]:
     try:
         reg = sim.registry()
         kopf.on.event(GROUP, VERSION, PLURAL, registry=reg, id='see')(sim.handler('see', kind='event'))
-        op = sim.operator('op1', reg, sim.settings(watching__reconnect_backoff=1))
+        # scenario dimension `timeouts`: the watch is cut by the server (?timeoutSeconds), by the client (ClientTimeout.total) or by
+        # kopf's own inactivity timer; `reqfaults`: the n-th list/watch request of the handled kind is answered 429 (with or
+        # without Retry-After) a number of times in a row, or fails at the transport level
+        tune = {{'server': 'watching__server_timeout', 'client': 'watching__client_timeout', 'inactivity': 'watching__inactivity_timeout'}[k]: v
+                for k, v in (sc.get('timeouts') or {}).items()}
+        op = sim.operator('op1', reg, sim.settings(watching__reconnect_backoff=1, networking__error_backoffs=(1, 1), **tune))
         sim.srv.rv = sc.get('rv0', 100)
+        rf = {int(k): v for k, v in (sc.get('reqfaults') or {}).items()}
+        nreq = {'n': 0, 'left': 0, 'what': None}
+        if rf:
+            from sim.fakek8s import Fault, Plan
+
+            def policy(req):
+                if req.route.get('plural') != PLURAL or req.route.get('kind') not in ('list', 'watch'):
+                    return None
+                if nreq['left'] <= 0:
+                    nreq['n'] += 1
+                    if nreq['n'] in rf:
+                        nreq['what'], nreq['left'] = rf[nreq['n']]
+                if nreq['left'] > 0:
+                    nreq['left'] -= 1
+                    w = nreq['what']
+                    return Plan(fault=Fault('status', 429, retry_after=2) if w == '429ra' else Fault('status', 429) if w == '429'
+                                else Fault('status', 503) if w == '503' else Fault(w))
+                return None
+            sim.srv.policy = policy
         x = {o: 0 for o in OBJS}
         fatal_at: list[float] = []
 
@@ -86,8 +112,9 @@ def run_continuity(sc: dict[str, Any]) -> dict[str, Any]:
         sim.close()
 
 
-def convert(raw: list[dict[str, Any]], plurals: set[str]) -> list[dict[str, Any]]:
+def convert(raw: list[dict[str, Any]], plurals: set[str], attempts: int = 3) -> list[dict[str, Any]]:
     out = []
+    failed: dict[tuple, int] = {}       # consecutive failed attempts of the current list / watch call per stream (api.request: len(backoffs)+1 attempts)
     opened: set[int] = set()
     held: dict[int, list[dict[str, Any]]] = {}       # catch-up lines are recorded before the request that opened their watch
     for e in raw:
@@ -97,8 +124,10 @@ def convert(raw: list[dict[str, Any]], plurals: set[str]) -> list[dict[str, Any]
         elif ev == 'srv.write' and e.get('res') in plurals and not e.get('noop'):
             out.append({'ev': 'commit', 'o': e['name'], 'rv': e['rv'], 'gone': bool(e.get('gone'))})
         elif ev == 'srv.req' and e.get('plural') in plurals and e.get('kind') == 'list' and e.get('code') == 200:
+            failed.pop((e.get('loop'), e['plural'], e.get('ns'), 'list'), None)
             out.append({'ev': 'list', 'key': f'{e["plural"]}|{e.get("ns") or "*"}', 'rv': e['listrv'], 'objs': e.get('names', []), 'covers': True})
         elif ev == 'srv.req' and e.get('plural') in plurals and e.get('kind') == 'watch' and e.get('code') == 200:
+            failed.pop((e.get('loop'), e['plural'], e.get('ns'), 'watch'), None)
             out.append({'ev': 'open', 'key': f'{e["plural"]}|{e.get("ns") or "*"}', 'since': e.get('since') or 0})
             opened.add(e['watch']); out.extend(held.pop(e['watch'], []))
         elif ev == 'srv.watch.line' and e.get('res') in plurals and e.get('rv') is not None and e.get('type') != 'ERROR':
@@ -106,7 +135,14 @@ def convert(raw: list[dict[str, Any]], plurals: set[str]) -> list[dict[str, Any]
         elif ev == 'h.enter' and e.get('kind') == 'event' and e.get('name') in OBJS:
             out.append({'ev': 'seen', 'o': e['name'], 'rv': e['rv'] or 0, 'gone': e.get('type') == 'DELETED'})
         elif ev == 'env.fatal':
-            out.append({'ev': 'fatal', 'key': 'things|*'})
+            out.append({'ev': 'fatal', 'key': 'things|*', 'why': 'line'})
+        elif ev == 'srv.fault' and e.get('plural') in plurals and e.get('route') in ('list', 'watch'):
+            k = (e.get('loop'), e['plural'], e.get('ns'), e['route'])
+            failed[k] = failed.get(k, 0) + 1
+            if failed[k] >= attempts:       # the call gives up with the error of its last attempt
+                failed[k] = 0
+                if e.get('fault') == 'status' and (e.get('code', 0) >= 500 or e.get('code') == 403):
+                    out.append({'ev': 'fatal', 'key': f'{e["plural"]}|{e.get("ns") or "*"}', 'why': 'escalated'})
         elif ev == 'env.check':
             out.append({'ev': 'check', 'served': e['served'], 'watched': e['watched'], 'settled': False})
         elif ev == 'srv.req' and e.get('plural') in plurals and e.get('kind') in ('list', 'watch') and e.get('code') == 404:
@@ -250,7 +286,15 @@ def gen_continuity(seed: int, n: int) -> list[dict[str, Any]]:
             opn = rnd.choices(['add', 'edit', 'delete', 'eof', 'conn', 'payload', 'gone410', 'bookmark', 'weird', 'fatal'],
                               [4, 8, 2, 3, 2, 1, 3, 2, 1, 0.3])[0]
             env.append((t, opn, rnd.choice(OBJS)) if opn in ('add', 'edit', 'delete') else (t, opn))
-        out.append({'id': f'cont-{seed}-{i}', 'env': env, 'end': t + 30, 'rv0': rnd.choice([5, 8, 95, 98, 100, 993, 997, 4321])})
+        sc = {'id': f'cont-{seed}-{i}', 'env': env, 'end': t + 30, 'rv0': rnd.choice([5, 8, 95, 98, 100, 993, 997, 4321])}
+        r2 = random.Random(f'cont-x-{seed}-{i}')        # (a stream of its own: the histories of earlier rounds stay as they were)
+        if i % 3 == 1:
+            sc['timeouts'] = {r2.choice(['server', 'client', 'inactivity']): r2.choice([2, 3, 5])}
+            if r2.random() < 0.3: sc['timeouts'][r2.choice(['server', 'client', 'inactivity'])] = r2.choice([2, 4, 7])
+        if i % 3 == 2:
+            sc['reqfaults'] = {str(r2.randint(1, 6)): (r2.choice(['429', '429ra', '503', 'conn', 'timeout']), r2.choice([1, 2, 3, 4]))
+                               for _ in range(r2.randint(1, 3))}
+        out.append(sc)
     return out
 
 
@@ -338,5 +382,5 @@ def run(ctx, rep) -> None:
         if t['stall']:
             rep.violation(f'{t["id"]}: event loop stalled', payload=t)
         elif v != 'ok':
-            rep.classified(v if v in ('F15', 'F25') else '', f'{t["id"]}: {v}', payload=t)
+            rep.classified(v if v in ('F15', 'F25', 'F32') else '', f'{t["id"]}: {v}', payload=t)
     rep.sample({'scenario': traces[0]['scenario'], 'events_head': traces[0]['events'][:12]}); rep.sample(traces[-1]['events'][-3:])
